@@ -55,6 +55,10 @@ C02_Step(S, c, cmd, R) ==
           /\ \A k \in DOMAIN R.out : R.out[k].k = "r" => FALSE
     /\ \A k \in DOMAIN R.out : (R.out[k].k = "r" /\ Registered(S, c)) =>
           R.out[k].src = S.conns[c].src       \* every relay carries the issuer's own identity
+    /\ (Registered(S, c) /\ cmd.verb \notin {"KILL", "DIE", "SQUIT"}) =>     \* it modifies only the user it registered itself:
+          \A n \in DOMAIN S.users \ {NickOf(S, c)} :                          \* everybody else keeps identity, modes and away state
+             /\ n \in DOMAIN R.st.users
+             /\ \A f \in {"host", "uname", "real", "src", "modes", "away"} : R.st.users[n][f] = S.users[n][f]
 
 (* ---- C03: nothing works before registration; registration needs the right password ---- *)
 RequiredPw(S, uname) ==
